@@ -27,7 +27,7 @@ impl ZipW {
         let crc = crc32fast::hash(data);
         let (m, payload): (u16, Vec<u8>) = match method {
             Method::Stored => (0, data.to_vec()),
-            Method::Deflated => (8, compress_to_vec(data, 6)),
+            Method::Deflated => (8, compress_to_vec(data, 1)),
         };
         let offset = self.out.len() as u32;
         let nb = name.as_bytes();
